@@ -6,6 +6,15 @@ hook_commits = subprocess.run(['git','-C','/repo','log','--format=%H','--grep=in
 
 # id -> (level, technique, level text, level note, design ref)
 CHECKS = {
+ 'C02': ('exploration', 'process-fate monitor: every input runs the whole pipeline in isolated worker processes under a write-ahead protocol, recover(), a per-input watchdog (re-confirmed alone) and an address-space limit; crash dumps are reduced to call-site / recursion-cycle signatures; output digests are compared across two in-process runs and a second process; a sample goes through the real cue binary',
+   '5k mutated corpus inputs and token soups, 2.5k generated programs, 1.5k rearranged evaluator testdata files (frozen stream), deep nestings and adversarial seeds in quick; 150k/60k/20k in thorough.',
+   'Bounded time/memory is an envelope (30 s re-confirmed with 90 s, 6 GiB address space) for inputs <= 4 KiB. Crash findings are keyed by call-site signature, hang findings by the rearranged testdata file.', 'DESIGN.md §4 C02'),
+ 'C07': ('exploration', 'metamorphic runtime monitor in isolated worker processes: Syntax(profile) -> format -> parse -> compile -> evaluate, observation of the re-evaluated value compared with the observation of the printed value under the projection of the profile; cue eval / export --out cue / def on a sample',
+   '1.5k/40k generated programs (whole value and sub-values taken out of scope) + the calibrated part of the evaluator corpus, 6 option profiles each.',
+   'Programs with an error anywhere are outside the statement. The exporter helper definition _#def is not part of the observation. Three recorded findings matched by class.', 'DESIGN.md §4 C07'),
+ 'C20': ('exploration', 'metamorphic runtime monitor in isolated worker processes: final observation per top-level field before and after trim.Files, re-parse/re-compile of the trimmed files, second trim must be a no-op; cue trim in place on a sample',
+   '4k/60k generated packages (schema packages with implied/overriding/conflicting data, C01 programs augmented with copies of their own evaluated values, 1-3 files) + the trim testdata inputs.',
+   'trim refuses packages with evaluation errors, so the "same errors" clause is exercised only through fields that stay incomplete. One recorded finding (not a fixpoint with duplicate declarations).', 'DESIGN.md §4 C20'),
  'C03': ('exploration', 'reference-model monitor over enumerated and sampled executions (set model of constraints vs evaluator, E and E&atom for every atom)',
    'Exhaustive for conjunctions of <=2 constraints over the full alphabet x every atom (|E|=3 numeric sub-alphabet in thorough), PRNG-sampled beyond, plus large-magnitude/high-precision bounds probed at +-1 ulp and predeclared ranges probed around their limits; a finite set model decides each observed evaluation. Universal only inside the enumerated sub-space.',
    'Trusts the 150-line set model (written from the statement/spec), Go regexp for =~, and cue.Value accessors used to read results back.', 'DESIGN.md §4 C03'),
